@@ -188,9 +188,13 @@ RepViol(w, wid, a, x, at) ==
     \* glue: the real representation and the contract agree
     \cup If(SeqSet(dense) # LiveOn(w, a),
             {V(<<"C01", "C06", "C12">>, at, "dump: stored handles differ from the live entities of the contract")})
+    \* (a free position may carry the generation of the last handle issued there -- an implementation
+    \* is free to advance it when the position is reused rather than when it is released; an OLDER
+    \* one cannot become fresh again by a single advance. The refill phase of every history and the
+    \* freshness check on every real creation decide the equal case by behaviour.)
     \cup If(~w.wrapped[a + 1] /\ \E p \in freeP : \E t \in w.issued :
-                t[1] = IdOf(a) /\ t[2] = p /\ ~GenLt(Gen(t), <<slots[p + 1][3], slots[p + 1][4]>>),
-            {V(<<"C08", "C01">>, at, "dump: a free position carries a generation not newer than a handle already issued there")})
+                t[1] = IdOf(a) /\ t[2] = p /\ GenLt(<<slots[p + 1][3], slots[p + 1][4]>>, Gen(t)),
+            {V(<<"C08", "C01">>, at, "dump: a free position carries a generation older than a handle already issued there")})
     \cup If(Decl.events /\ (d.evl[1] # Cardinality(w.evc[a + 1]) \/ d.evl[2] # Cardinality(w.evd[a + 1])),
             {V(<<"C17">>, at, "dump: event vector lengths differ from the pending events")})
 
